@@ -4,6 +4,8 @@
         exogenous setting of the functional witness, for every base value assignment.
 (simp)  simplify(event): an event with the same probability; None only at probability 0.
 (anc)   get_ancestors_of_counterfactual == an independent implementation of Definition 2.1.
+(comp)  get_ancestral_components == an independent implementation of Definition 4.2 (roots: one or two
+        counterfactual variables, conditioned: any subset of them).
 (fact)  do_counterfactual_factor_factorization: the sum-product, evaluated with multi-world joint terms
         obtained by noise enumeration, equals the query's probability.
 State space: graph x counterfactual variable (every consistent subscript assignment, incl. irrelevant
@@ -63,6 +65,81 @@ def ref_ancestors(g: G, v, subs):
         z = tuple(sorted((n, s) for n, s in subs if n in aw))
         out.add((w, z))
     return out
+
+
+def ref_minimize(g: G, v, subs):
+    xs = [n for n, _ in subs]
+    t = set(ancestors_inc(remove_in_edges(g, xs), [v])) & set(xs)
+    return (v, tuple(sorted((n, s) for n, s in subs if n in t)))
+
+
+def ref_ancestral_components(g: G, roots, cond):
+    """Definition 4.2: ancestral sets An(W_t) in G with the edges out of X_*(W_t) removed, where X_*(W_t) are the vertices
+    of the minimised conditioned variables that are ancestors of W_t; sets are united when they share a counterfactual
+    variable or a bidirected edge of G joins a variable of one with a variable of the other."""
+    min_cond = {ref_minimize(g, v, subs) for v, subs in cond}
+    sets = []
+    for w, t in roots:
+        anc = ref_ancestors(g, w, t)
+        xw = {v for v, subs in min_cond if (v, subs) in anc}
+        sets.append(frozenset(ref_ancestors(remove_out_edges(g, xw), w, t)))
+    sets = list(dict.fromkeys(sets))
+    bi = {frozenset(e) for e in g.bi}
+    comp = list(range(len(sets)))
+
+    def find(i):
+        while comp[i] != i:
+            i = comp[i]
+        return i
+
+    for i, j in itt.combinations(range(len(sets)), 2):
+        # two worlds of one vertex share that vertex's exogenous noise, so sets that contain the same vertex (even in
+        # different worlds) are linked as well -- the reading under which the components are independent of each other
+        linked = (
+            bool(sets[i] & sets[j])
+            or bool({a[0] for a in sets[i]} & {b[0] for b in sets[j]})
+            or any(frozenset((a[0], b[0])) in bi for a in sets[i] for b in sets[j])
+        )
+        if linked:
+            comp[find(i)] = find(j)
+    out = {}
+    for i, s_ in enumerate(sets):
+        out.setdefault(find(i), set()).update(s_)
+    return frozenset(frozenset(x) for x in out.values())
+
+
+def check_components(res: Res, g: G, yg, roots, cond, case):
+    from y0.algorithm.counterfactual_transport.ancestor_utils import get_ancestral_components
+    from y0.dsl import CounterfactualVariable
+
+    res.states += 1
+    res.transitions += 1
+
+    def key(x):
+        return (str(x.name), tuple(sorted((i.name, bool(i.star)) for i in x.interventions)) if isinstance(x, CounterfactualVariable) else ())
+
+    try:
+        got = get_ancestral_components(
+            conditioned_variables={item_key((v, subs, False)) for v, subs in cond},
+            root_variables={item_key((v, subs, False)) for v, subs in roots},
+            graph=yg,
+        )
+    except Exception as e:  # noqa
+        res.violation("components", case, f"get_ancestral_components raised {type(e).__name__}: {e}", finding="components_exception", fkey=fkey_of("C19c", case))
+        return
+    got_k = frozenset(frozenset(key(x) for x in comp) for comp in got)
+    want = ref_ancestral_components(g, roots, cond)
+    if got_k != want:
+        res.violation(
+            "components",
+            case,
+            f"get_ancestral_components gives {sorted(map(sorted, got_k))}, Definition 4.2 gives {sorted(map(sorted, want))}",
+            finding="components_differ",
+            fkey=fkey_of("C19c", case),
+        )
+        res.outcomes["components_wrong"] += 1
+    else:
+        res.outcomes["components_ok"] += 1
 
 
 def check_variable(res: Res, g: G, yg, m, v, subs, case):
@@ -202,6 +279,21 @@ def explore_graph(res: Res, g: G, tier, seed, only=None):
             if len(res.samples) < 3 and len(items) == 2 and items[0][1]:
                 res.sample(case)
             check_event(res, g, yg, m, items, case)
+    if only is None or only[0] == "components":
+        # (comp) roots: one or two counterfactual variables (up to 1 subscript, non-reflexive); conditioned: any subset
+        cvars = [(v, subs) for v in g.nodes for subs in sub_assignments(g.nodes, 1) if v not in dict(subs)]
+        root_sets = [(a,) for a in cvars] + list(itt.combinations(cvars, 2))
+        for roots in root_sets:
+            for k in range(len(roots) + 1):
+                for cond in itt.combinations(roots, k):
+                    case = {
+                        "graph": g.to_json(),
+                        "roots": [[v, [[a, "+" if s else "-"] for a, s in subs]] for v, subs in roots],
+                        "conditioned": [[v, [[a, "+" if s else "-"] for a, s in subs]] for v, subs in cond],
+                    }
+                    if only is not None and (case["roots"], case["conditioned"]) != only[1]:
+                        continue
+                    check_components(res, g, yg, roots, cond, case)
     if snapshot(yg) != before:
         res.violation("side_effect", {"graph": g.to_json()}, "the caller's graph was modified")
 
@@ -219,7 +311,9 @@ def replay(case, clause=None):
 
     res = Res()
     g = G.from_json(case["graph"])
-    if "variable" in case:
+    if "roots" in case:
+        only = ("components", (case["roots"], case["conditioned"]))
+    elif "variable" in case:
         v, subs = case["variable"]
         only = ("variable", (v, tuple((a, s == "+") for a, s in subs)))
     else:
